@@ -1,4 +1,6 @@
 """C12 — the result cache is a correct bounded LRU with a staleness limit."""
+from props import lrucode
+
 PROP = dict(
     id="C12",
     level="proof",
@@ -24,13 +26,21 @@ THEOREMS = ["Wtf.C12." + t for t in (
     "latest_and_fresh", "sweep_only_expired", "stats_hits_misses", "stats_evictions_size")]
 
 
+# the model is the source's control flow: method bodies translated statement by statement (Gen/LruCode.lean) and shown to be the model
+THEOREMS += lrucode.THEOREMS
+PROP["level_text"] += (" Props/C12b.lean: the bodies of Get, Put, Delete, Clear, CleanupExpired, Size and evictOldest are TRANSLATED statement by statement "
+                       "into a small statement language on every run (Gen/LruCode.lean, xlate/x_lrucode.go, which also asserts removeElement and that no other "
+                       "method stores to the cache's fields); running the translated programs on the abstract state is the hand-written model for every state, "
+                       "time, argument (`step_regenerated`) and history (`run_regenerated`), so every theorem above speaks about them (`bounded_regenerated`).")
+
+
 def nontrivial(tags, ops, impl):
     return any(tags.get(k, 0) > 0 for k in ("evict", "expired-on-get", "swept"))
 
 
 def run(ctx):
-    ctx.stage_xlate(required_assertions=["lru:NewLRUCache", "lru:default-capacity"])
-    ctx.stage_prove(THEOREMS)
+    ctx.stage_xlate(required_assertions=["lru:NewLRUCache", "lru:default-capacity"] + lrucode.ASSERTIONS)
+    ctx.stage_prove(THEOREMS, extra_targets=["WtfModel.Props.C12b"])
     if not ctx.stage_build():
         return
     n = 600 if ctx.tier == "quick" else 20000
